@@ -80,6 +80,14 @@ def evaluate(case):
         fails.append(f"lorch transform differs from plain transform of pre-multiplied data by {relerr(v0, vp, scale=sc):.3g}")
     if dy is not None and relerr(e0, ep, scale=float(np.abs(dy).max()) * float(hi - x.min()) + 1e-300) > 1e-9:
         fails.append("lorch uncertainty differs from plain uncertainty of pre-multiplied input uncertainty")
+    # "xmax the largest abscissa entering the transform": the same rows stored from high x to low x are damped with the same window
+    # (the trapezoid sum over reversed rows is the negative of the original; the uncertainties are the same)
+    if xmax is None and len(x) >= 2:
+        _, vd, ed = t.fourier_transform(x[::-1].copy(), y[::-1].copy(), xo, dy_in=None if dy is None else dy[::-1].copy(), lorch=True)
+        scd = float(np.abs(y).max()) * float(x.max() - x.min()) + 1e-300
+        if relerr(-np.asarray(vd), v0, scale=scd) > 1e-9 or (dy is not None and relerr(np.asarray(ed), e0, scale=float(np.abs(dy).max()) * float(x.max() - x.min()) + 1e-300) > 1e-9):
+            fails.append("fourier_transform(lorch=True) on the same rows stored in descending order is not the negative of the ascending result "
+                         "with the same uncertainties: the Lorch window is not pi / (largest abscissa)")
     # "with the Lorch option": the option switched on by the result of a comparison (a numpy.bool_) or by 1 is the option switched on
     for flag in (np.bool_(True), np.float64(x.max()) < np.inf, 1):
         _, vb, eb = t.fourier_transform(x, y, xo, xmax=xmax, dy_in=dy, lorch=flag)
